@@ -2767,7 +2767,11 @@ impl Interpreter {
             }
             JsValue::String(s) => self.property_key_from_js_string(s.cheap_clone()),
             JsValue::Symbol(s) => PropertyKey::Symbol(s.clone()),
-            _ => PropertyKey::String(self.to_js_string(value)),
+            _ => {
+                // ToPropertyKey: the string form may be an array index ("0" from [0])
+                let s = self.to_js_string(value);
+                self.property_key_from_js_string(s)
+            }
         }
     }
 
